@@ -4,27 +4,6 @@ From CV Require Import Promise.Promise Promise.PromiseProofs Promise.PromiseJoin
   Promise.PromiseJoinInv Promise.PromiseJoinRefs Promise.PromiseJoinDest Promise.PromiseJoinChain.
 Open Scope Z_scope.
 
-Lemma jcount_nonneg : forall f l, 0 <= jcount f l.
-Proof. induction l; cbn [jcount]; [lia|]. destruct (f a); lia. Qed.
-
-Lemma jcount_pos : forall f l, 0 < jcount f l -> exists t th, nth_error l t = Some th /\ f th = true.
-Proof.
-  induction l as [|a l IH]; cbn [jcount]; intros H; [lia|].
-  destruct (f a) eqn:E.
-  - exists 0%nat, a. auto.
-  - destruct (IH ltac:(lia)) as [t [th [H1 H2]]]. exists (S t), th. auto.
-Qed.
-
-Lemma jcount_mem : forall f l t th, nth_error l t = Some th -> f th = true -> 0 < jcount f l.
-Proof.
-  induction l as [|a l IH]; intros t th H Hf; destruct t; cbn [jcount nth_error] in *; try discriminate.
-  - inversion H; subst. rewrite Hf. pose proof (jcount_nonneg f l). lia.
-  - pose proof (IH t th H Hf). destruct (f a); lia.
-Qed.
-
-Lemma jcount_init : forall f ops, (forall o, f (mk_jthread o) = false) -> jcount f (map mk_jthread ops) = 0.
-Proof. induction ops; cbn [jcount map]; intros H; auto. rewrite H, IHops; auto. Qed.
-
 Lemma ongoing_close_sigs : forall sigs c k, p_ongoing (getp (close_sigs c sigs) k) = p_ongoing (getp c k).
 Proof. intros. destruct (getp_close_sigs sigs c k) as [H|H]; rewrite H; reflexivity. Qed.
 Lemma stopped_close_sigs : forall sigs c k, p_stopped (getp (close_sigs c sigs) k) = p_stopped (getp c k).
@@ -45,8 +24,6 @@ Record JC1 (c : jconfig) : Prop := {
   C_stopped : forall k, p_stopped (getp c k) = COpen -> 0 < p_ongoing (getp c k) /\ p_caller (getp c k) = false
 }.
 
-Ltac thr_simp Hth :=
-  repeat progress (autorewrite with jc_simp); rewrite ?(jcount_upd _ _ _ _ _ Hth).
 
 Lemma JC1_step : forall v c t c', JR c -> JC1 c -> jstep v c t = Some c' -> JC1 c'.
 Proof.
